@@ -45,7 +45,10 @@ Theorem C15_exact_once_selective_writer :
     blocks_of ls1 = blocks_of ls2 ->
     let o' := apply_opts o in
     let P := enc_payload [root] (first_occ (blocks_of ls2)) in
-    (51 + o_dpad o' + blen P + o_ipad o' <? two64) = true ->
+    (* both paddings can be allocated (make() panics above max_alloc = 2^48; the index padding only
+       matters when an index is written) and the payload is below 2^63 bytes: nothing can wrap *)
+    (o_dpad o' <=? max_alloc) && ((o_codec o' =? codec_none) || (o_ipad o' <=? max_alloc)) = true ->
+    blen P < two63 ->
     let hdr := mkv2 0 0 (51 + o_dpad o') (blen P)
                  (if o_codec o' =? codec_none then 0 else 51 + o_dpad o' + blen P + o_ipad o') in
     let H := pragma ++ enc_v2hdr hdr ++ zerosN (o_dpad o') in
@@ -58,7 +61,7 @@ Theorem C15_exact_once_selective_writer :
                    end in
     selective_write order true root o (mktrace ls1 true) (mktrace ls2 true)
     = Some (mkw (H ++ P ++ fst tl) (blen (H ++ P ++ fst tl)) (snd tl) (blen P)).
-Proof. exact selective_write_spec. Qed.
+Proof. exact selective_write_spec_pads. Qed.
 Print Assumptions C15_exact_once_selective_writer.
 
 (* the guard is sound whatever the sizing pass counted (any trace, repaired loader or not):
@@ -68,7 +71,7 @@ Theorem C15_announced_size_selective_writer :
     Forall (fun l => cid_bytes_ok (l_cid l) /\ l_touched l = true) ls2 ->
     new_selective_writer fixed root tr1 = Some size ->
     let o' := apply_opts o in
-    (51 + o_dpad o' + size + o_ipad o' <? two64) = true ->
+    o_dpad o' < two64 -> size < two63 ->       (* a uint64 option; a size below 2^63 *)
     selective_write order fixed root o tr1 (mktrace ls2 true) = Some w -> w_err w = None ->
     let P := enc_payload [root] (first_occ (blocks_of ls2)) in
     let hdr := mkv2 0 0 (51 + o_dpad o') (blen P)
@@ -82,8 +85,9 @@ Theorem C15_announced_size_selective_writer :
                    end in
     size = blen P
     /\ w_bytes w = (pragma ++ enc_v2hdr hdr ++ zerosN (o_dpad o')) ++ P ++ fst tl
-    /\ w_n w = blen (w_bytes w).
-Proof. exact selective_write_sound. Qed.
+    /\ w_n w = blen (w_bytes w)
+    /\ 51 + o_dpad o' + blen P + (if o_codec o' =? codec_none then 0 else o_ipad o') < two64.
+Proof. exact selective_write_sound_pads. Qed.
 Print Assumptions C15_announced_size_selective_writer.
 
 (* the loader as it was before the fix: refuted on a load sequence with a repeat ... *)
@@ -111,7 +115,8 @@ Theorem C15_exact_once_traverse_to_file :
     Forall (fun l => cid_bytes_ok (l_cid l) /\ l_touched l = true) ls ->
     let o' := apply_opts o in
     let P := enc_payload [root] (first_occ (blocks_of ls)) in
-    (51 + o_dpad o' + blen P + o_ipad o' <? two64) = true ->
+    (o_dpad o' <=? max_alloc) && ((o_codec o' =? codec_none) || (o_ipad o' <=? max_alloc)) = true ->
+    blen P < two63 ->
     let hdr := fun size => mkv2 0 0 (51 + o_dpad o') size
                  (if o_codec o' =? codec_none then 0 else 51 + o_dpad o' + size + o_ipad o') in
     let recs := map (fun e => (fst (fst (fst e)), snd (fst e)))
@@ -126,7 +131,7 @@ Theorem C15_exact_once_traverse_to_file :
       | None => ((pragma ++ enc_v2hdr (hdr (blen P)) ++ zerosN (o_dpad o')) ++ P ++ fst tl, None)
       | Some e => ((pragma ++ enc_v2hdr (hdr 0) ++ zerosN (o_dpad o')) ++ P ++ fst tl, Some e)
       end.
-Proof. exact traverse_to_file_spec. Qed.
+Proof. exact traverse_to_file_spec_pads. Qed.
 Print Assumptions C15_exact_once_traverse_to_file.
 
 (* every record the teeing loader hands to the index locates exactly that block's section *)
@@ -147,6 +152,27 @@ Theorem C15_offset_impossible :
     snd (write_v2_header o size) = Some TOffsetImpossible.
 Proof. exact write_v2_header_wraps. Qed.
 Print Assumptions C15_offset_impossible.
+
+(* ... and a data padding above the allocation limit whose data offset still fits: the header goes
+   out, then make() panics *)
+Theorem C15_padding_above_alloc_limit_panics :
+  forall o size, max_alloc < o_dpad o -> 51 + o_dpad o < two64 ->
+    snd (write_v2_header o size) = Some TPanic.
+Proof. exact write_v2_header_panics. Qed.
+Print Assumptions C15_padding_above_alloc_limit_panics.
+
+(* "data offset fits, index offset wraps" never ends in success: with an index, uint64 paddings and a
+   size below 2^63, 51+dpad+size+ipad >= 2^64 forces a padding above the allocation limit, so WriteTo
+   panics or has failed earlier -- whatever the walk did *)
+Theorem C15_index_offset_wrap_never_succeeds :
+  forall order root o tcsize ls ok,
+    Forall (fun l => cid_bytes_ok (l_cid l) /\ l_touched l = true) ls ->
+    o_dpad o < two64 -> tcsize < two63 ->
+    o_codec o =? codec_none = false ->
+    two64 <= 51 + o_dpad o + tcsize + o_ipad o ->
+    w_err (write_to order root o tcsize (mktrace ls ok)) <> None.
+Proof. exact index_offset_wrap_never_succeeds. Qed.
+Print Assumptions C15_index_offset_wrap_never_succeeds.
 
 (* ---- root module: SelectiveCar --------------------------------------------------------------------- *)
 (* k = number of OnNewCarBlock callbacks registered (with Write, resp. with Prepare for Dump);
